@@ -116,7 +116,7 @@ Print Assumptions C19_remove_spec.
    changes nothing exactly when count / last index are not representable *)
 Theorem C19_move_spec :
   forall f e t d st, in64 f -> in64 e -> in64 t ->
-  if move_ok (tid_eqb d T1) f e t
+  if move_ok f e t
   then exists st', run (move_im f e t d) st = (ORet tt, st') /\ lens_kept st st' /\ other_kept st st' d /\
                    forall k, dst_of st' d k = move_spec (m1 st) (dst_of st d) f e t k
   else exists err, run (move_im f e t d) st = (OFail err, st).
